@@ -656,7 +656,7 @@ func chooseUniverse(r *mrand.Rand, pool []*testKey, minKeys int, fast bool) (key
 // runSequences: stream "seq" — operation sequences against the keyring, the
 // serial client and the pipelined client (in-memory duplex) under virtual time.
 func runSequences(t *testing.T, m *mon.M, pool []*testKey) {
-	total := m.N(3000, 100000)
+	total := m.N(3000, 40000)
 	m.Cases("seq", total, func(i int64, r *mrand.Rand) {
 		x := mix(i) // decorrelated from the batch layout (i mod nbatch)
 		motif := int(x % 6)
